@@ -1,22 +1,22 @@
 (* C03 — decode . encode . decode is stable: whatever decodes successfully can be encoded again (no error, no panic)
    and decodes to the same value.
    Model / tie: as for C01 and C02 (Model.Codec, Gen.UaTypes, codecharness correspondence incl. the re-encoded bytes);
-   rwf / rnorm / grid / noempty / desc_ok: Model.CodecWfAll.
+   rwf / rnorm / noempty / desc_ok: Model.CodecWfAll.
    PROVED:
-   (a) the full statement is REFUTED twice: a DateTime outside the int64-nanosecond range (C03_refuted_datetime, known
-       finding datetime-out-of-range) and an extension object of a registered EMPTY struct type with a non-empty body
+   (a) the full statement is REFUTED by an extension object of a registered EMPTY struct type with a non-empty body
        (C03_refuted_empty_extobj, known finding extobj-empty-struct: Value = &T{} re-encodes with body length 0, which
        decodes to Value = nil);
    (b) C03_partial_stable: for ANY registry satisfying reg_desc_ok / reg_min_ok and ANY descriptor satisfying desc_ok
        (C03_registry: the generated ones do), any nesting budget, any input of at most MaxInt32 bytes (longer strings
-       cannot be re-encoded): a successfully decoded value v whose DateTimes are on the 100 ns grid (grid v: ReadTime did
-       not wrap) and which carries no empty-struct extension object body (noempty v) -- i.e. outside exactly the two
-       refuted classes -- encodes again without error or panic, the re-encoding is not longer than the bytes the decoder
-       consumed, and the re-encoding followed by ANY bytes decodes to v and leaves those bytes.  Through all eight
-       hand-written codecs, all descriptors, non-canonical masks, unknown extension object ids, multi-dimensional arrays.
-       Ingredients: C03_decoded_wf (decoded values are rwf0 and, on the grid, their own normal form), C03_decoded_rwf
-       (without empty bodies they satisfy the full rwf; re-encoding not longer than the input), C01's roundtrip_all;
-   (c) the two repaired defects (rows 4, 5) on the model. *)
+       cannot be re-encoded): a successfully decoded value v which carries no empty-struct extension object body
+       (noempty v: the complement of the refuted class) encodes again without error or panic, the re-encoding is not
+       longer than the bytes the decoder consumed, and the re-encoding followed by ANY bytes decodes to v and leaves
+       those bytes.  Through all eight hand-written codecs, all descriptors, non-canonical masks, unknown extension
+       object ids, multi-dimensional arrays, every DateTime (int64 ticks).
+       Ingredients: C03_decoded_wf (decoded values are rwf0 and their own normal form), C03_decoded_rwf (without empty
+       bodies they satisfy the full rwf; re-encoding not longer than the input), C01's roundtrip_all;
+   (c) the repaired defects on the model (C03_fixed_rows): rows 4, 5 and the DateTime wrap of Buffer.ReadTime/WriteTime
+       (fixed in /repo b66eff8: DateTime outside 1677..2262, e.g. 9999-12-31, used to decode to an unrelated time). *)
 From Coq Require Import NArith ZArith List Bool Lia.
 From Coq.Strings Require Import Byte.
 From Opcua Require Import Model.CodecTypes Model.Codec Model.CodecEq Model.CodecWf Model.CodecWfAll Proofs.CodecBase Proofs.CodecRT
@@ -46,24 +46,7 @@ Definition stable_check (t : ty) (bs : bytes) : Z :=
   | _ => 3
   end.
 
-(* REFUTED (known finding C03 datetime-out-of-range): Buffer.ReadTime multiplies the 100 ns tick count by 100 in uint64;
-   outside 1677..2262 the product wraps, the wrapped nanosecond value is not a multiple of 100 and WriteTime truncates it,
-   so the second decode differs from the first *)
 Definition datetime_witness : bytes := [xff; xff; xff; xff; xff; xff; xff; xff].
-Theorem C03_refuted_datetime : ~ C03_statement.
-Proof.
-  intros H.
-  destruct (decode gen_reg (fuel_for datetime_witness) TTime datetime_witness) as [v rest al| | |] eqn:Ed.
-  2-4: (vm_compute in Ed; discriminate).
-  destruct (H TTime datetime_witness v rest al eq_refl Ed) as [bs' [al' [E D]]].
-  vm_compute in Ed. inversion Ed; subst v rest al. clear Ed.
-  vm_compute in E. inversion E; subst bs'. clear E.
-  vm_compute in D. discriminate.
-Qed.
-
-Theorem C03_datetime_unstable : stable_check (TCustom CVariant) (x0d :: datetime_witness) = 2 /\
-                                stable_check (TCustom CVariant) [x0d; x01; x00; x00; x00; x00; x00; x00; x00] = 2.
-Proof. vm_compute. split; reflexivity. Qed.
 
 (* REFUTED (known finding C03 extobj-empty-struct): type id 121 ... is registered with an empty struct; with a one-byte
    body the decoder returns Value = &T{} (run_sub drops the unread byte), Encode writes body length 0, and that decodes
@@ -74,8 +57,18 @@ Definition empty_extobj_witness : bytes :=
   | Some (ns, id, _) => [x01; x00] ++ le 2 id ++ [x01] ++ le 4 1 ++ [x00]
   | None => []
   end.
-Theorem C03_refuted_empty_extobj : stable_check (TCustom CExtObj) empty_extobj_witness = 2.
+Theorem C03_empty_extobj_unstable : stable_check (TCustom CExtObj) empty_extobj_witness = 2.
 Proof. vm_compute. reflexivity. Qed.
+Theorem C03_refuted_empty_extobj : ~ C03_statement.
+Proof.
+  intros H.
+  destruct (decode gen_reg (fuel_for empty_extobj_witness) (TCustom CExtObj) empty_extobj_witness) as [v rest al| | |] eqn:Ed.
+  2-4: (vm_compute in Ed; discriminate).
+  destruct (H (TCustom CExtObj) empty_extobj_witness v rest al eq_refl Ed) as [bs' [al' [E D]]].
+  vm_compute in Ed. inversion Ed; subst v rest al. clear Ed.
+  vm_compute in E. inversion E; subst bs'. clear E.
+  vm_compute in D. discriminate.
+Qed.
 
 Definition all_tys : list ty :=
   all_structs ++ map TPtr all_structs ++ map snd variant_types ++ [xml_body_ty].
@@ -84,11 +77,11 @@ Definition all_tys : list ty :=
 Theorem C03_registry : reg_desc_ok gen_reg = true /\ reg_min_ok gen_reg = true /\ forallb desc_ok all_tys = true.
 Proof. vm_compute. repeat split; reflexivity. Qed.
 
-(* FULL (on inputs up to MaxInt32 bytes): what the decoder returns is well-formed (rwf0) and, on the 100 ns grid, normal *)
+(* FULL (on inputs up to MaxInt32 bytes): what the decoder returns is well-formed (rwf0) and its own normal form *)
 Theorem C03_decoded_wf : forall reg fuel t bs v rest al,
   reg_desc_ok reg = true -> desc_ok t = true -> blen bs <= max_int32 ->
   decode reg fuel t bs = Ok v rest al ->
-  rwf0 reg t v = true /\ (grid v = true -> rnorm reg t v = v).
+  rwf0 reg t v = true /\ rnorm reg t v = v.
 Proof.
   intros reg fuel t bs v rest al Hreg Ht Hs E. exact (proj1 (decode_wf reg Hreg fuel t Ht bs v rest al Hs E)).
 Qed.
@@ -105,16 +98,16 @@ Proof.
   intros bs' E'. rewrite E' in He. exact He.
 Qed.
 
-(* PARTIAL (hypotheses = complement of the two refuted classes, input at most MaxInt32 bytes) *)
+(* PARTIAL (hypothesis = complement of the refuted class; input at most MaxInt32 bytes) *)
 Theorem C03_partial_stable : forall reg fuel t bs v rest al,
   reg_desc_ok reg = true -> reg_min_ok reg = true -> desc_ok t = true -> blen bs <= max_int32 ->
   decode reg fuel t bs = Ok v rest al ->
-  grid v = true -> noempty v = true ->
+  noempty v = true ->
   exists bs', encode reg t v = EOk bs' /\ (length bs' <= length bs - length rest)%nat /\
     forall fuel' rest', (length bs' < fuel')%nat -> exists al', decode reg fuel' t (bs' ++ rest') = Ok v rest' al'.
 Proof.
-  intros reg fuel t bs v rest al Hreg Hmin Ht Hs E Hg Hne.
-  destruct (C03_decoded_wf reg fuel t bs v rest al Hreg Ht Hs E) as [_ Hn]. specialize (Hn Hg).
+  intros reg fuel t bs v rest al Hreg Hmin Ht Hs E Hne.
+  destruct (C03_decoded_wf reg fuel t bs v rest al Hreg Ht Hs E) as [_ Hn].
   destruct (C03_decoded_rwf reg fuel t bs v rest al Hreg Hmin Ht Hs E) as [Hw Hlen]. specialize (Hw Hne).
   destruct (roundtrip_all reg t v Hw 0%nat) as [bs' [E' _]]. exists bs'. split; [exact E'|]. split; [apply Hlen; exact E'|].
   intros fuel' rest' Hf. destruct (roundtrip_all reg t v Hw fuel') as [bs2 [E2 [_ D]]].
@@ -123,12 +116,12 @@ Qed.
 
 (* in the shape of the statement, at the generated registry and descriptors *)
 Theorem C03_partial_generated : forall t bs v rest al, In t all_tys -> blen bs <= max_int32 ->
-  decode gen_reg (fuel_for bs) t bs = Ok v rest al -> grid v = true -> noempty v = true ->
+  decode gen_reg (fuel_for bs) t bs = Ok v rest al -> noempty v = true ->
   exists bs' al', encode gen_reg t v = EOk bs' /\ decode gen_reg (fuel_for bs') t bs' = Ok v [] al'.
 Proof.
-  intros t bs v rest al Hin Hs E Hg Hne. destruct C03_registry as [Hreg [Hmin Hall]].
+  intros t bs v rest al Hin Hs E Hne. destruct C03_registry as [Hreg [Hmin Hall]].
   assert (Ht : desc_ok t = true) by (rewrite forallb_forall in Hall; apply Hall; exact Hin).
-  destruct (C03_partial_stable gen_reg _ t bs v rest al Hreg Hmin Ht Hs E Hg Hne) as [bs' [E' [_ D]]].
+  destruct (C03_partial_stable gen_reg _ t bs v rest al Hreg Hmin Ht Hs E Hne) as [bs' [E' [_ D]]].
   destruct (D (fuel_for bs') [] ltac:(unfold fuel_for; lia)) as [al' D']. rewrite app_nil_r in D'.
   exists bs', al'. split; assumption.
 Qed.
@@ -137,17 +130,21 @@ Qed.
    non-canonical), an extension object of unknown type with a body, a DiagnosticInfo chain *)
 Example C03_nonvacuous :
   let chk := fun t bs => match decode gen_reg (fuel_for bs) t bs with
-                         | Ok v _ _ => grid v && noempty v && desc_ok t
+                         | Ok v _ _ => noempty v && desc_ok t
                          | _ => false end in
   chk (TCustom CVariant) [x46; x07; x00; x00; x00; x01; x02] = true /\
   chk (TCustom CExtObj) [x01; x00; x39; x30; x01; x03; x00; x00; x00; x09; x09; x09] = true /\
   chk (TCustom CDiagInfo) [x41; x05; x00; x00; x00; x00] = true /\
-  chk (TCustom CExtObj) empty_extobj_witness = false /\ chk TTime datetime_witness = false.
+  chk (TCustom CExtObj) empty_extobj_witness = false /\ chk TTime datetime_witness = true.
 Proof. vm_compute. repeat split; reflexivity. Qed.
 
-(* the repaired defects on the model: unknown-type extension object with a body (row 4), extension object with binary
+(* the repaired defects on the model: DateTime outside the int64-nanosecond range (all ones = 1 tick before 1601, 1 tick, 9999-12-31); unknown-type extension object with a body (row 4), extension object with binary
    mask and empty body, Variant mask 0x46 (row 5; also with following bytes left alone), non-canonical masks *)
 Theorem C03_fixed_rows :
+  stable_check TTime datetime_witness = 0 /\
+  stable_check (TCustom CVariant) (x0d :: datetime_witness) = 0 /\
+  stable_check (TCustom CVariant) [x0d; x01; x00; x00; x00; x00; x00; x00; x00] = 0 /\
+  stable_check TTime [x80; xa9; x27; xd1; x5e; x5a; xc8; x24] = 0 /\
   stable_check (TCustom CExtObj) [x01; x00; x39; x30; x01; x03; x00; x00; x00; x09; x09; x09] = 0 /\
   stable_check (TCustom CExtObj) [x01; x00; x39; x30; x01; x00; x00; x00; x00] = 0 /\
   stable_check (TCustom CExtObj) [x01; x00; x39; x30; x03; x01; x00; x00; x00; x09] = 0 /\
@@ -158,8 +155,7 @@ Theorem C03_fixed_rows :
   stable_check (TCustom CDiagInfo) [x80] = 0.
 Proof. vm_compute. repeat split; reflexivity. Qed.
 
-Print Assumptions C03_refuted_datetime.
-Print Assumptions C03_datetime_unstable.
+Print Assumptions C03_empty_extobj_unstable.
 Print Assumptions C03_refuted_empty_extobj.
 Print Assumptions C03_registry.
 Print Assumptions C03_decoded_wf.
